@@ -2642,6 +2642,18 @@ func (s *Store) fsmSnapshot() (fSnap raft.FSMSnapshot, retErr error) {
 		//
 		// A failed FULL snapshot is always retryable, since we're looking to capture
 		// the entire database. So return the error and Raft will retry.
+		//
+		// A full snapshot starts a new chain. Any WAL files still staged by earlier
+		// incremental snapshots that were never persisted predate the copy about to be
+		// taken, and must not be packaged with a later incremental snapshot, as they would
+		// then be replayed on top of this newer database. Record that a full snapshot is
+		// needed first, so that the chain stays broken until one has been stored.
+		if err := s.snapshotStore.SetDueNext(snapshot.Full); err != nil {
+			return nil, err
+		}
+		if err := os.RemoveAll(s.walStagingDir); err != nil {
+			return nil, err
+		}
 		if meta, _, err := s.checkpointer.Checkpoint(nil, truncateTimeout); err != nil {
 			return nil, fmt.Errorf("checkpoint failed during full snapshot: %w", err)
 		} else if !meta.Success() {
@@ -2796,6 +2808,11 @@ func (s *Store) fsmRestore(rc io.ReadCloser) (retErr error) {
 	// fast-restart with it.
 	if err := fsutil.RemoveFile(s.cleanSnapshotPath); err != nil {
 		return fmt.Errorf("failed to remove clean snapshot file: %w", err)
+	}
+	// Likewise any staged WAL files belong to the database being replaced, and
+	// must not be packaged with the next incremental snapshot.
+	if err := os.RemoveAll(s.walStagingDir); err != nil {
+		return fmt.Errorf("failed to remove WAL staging directory: %w", err)
 	}
 	if err := s.db.Swap(tmpPath, s.dbConf.FKConstraints, true); err != nil {
 		return fmt.Errorf("error swapping database file: %v", err)
